@@ -342,11 +342,15 @@ class GroupWorld(object):
             _, d, _ = self.client.take("leave")
             d.callback(C._LeaveGroupResponse(error=0)) if w[1] == "ok" else d.errback(result(w[1]))
         elif op == "consumerDown":
+            if int(w[1]) >= len(self.consumers):
+                raise KeyError("no consumer %s" % w[1])
             c = self.consumers[int(w[1])]
             if c.phase != "d":
                 raise KeyError("consumer %s is not draining" % w[1])
             c.complete_shutdown(w[2] == "ok")
         elif op == "consumerErr":
+            if int(w[1]) >= len(self.consumers):
+                raise KeyError("no consumer %s" % w[1])
             c = self.consumers[int(w[1])]
             if c.phase == "s" or c.start_d.called:
                 raise KeyError("consumer %s cannot fail" % w[1])
